@@ -34,6 +34,7 @@ type vrEv struct {
 
 func TestVerifReplay(t *testing.T) {
 	rom := make([]byte, 0x8000)
+	%(rominit)s
 	i := interrupts.New()
 	o := oam.New()
 	a := audio.New(nil, nil)
@@ -127,14 +128,22 @@ def replay_instruction(ctx, prop, ob, res, extra_setup=None):
         rd_addrs = []
         wr_addrs = []
         for e in evs:
-            cons.append(z3.Implies(guard, in_ram(e[1])))
             if e[0] == "R":
-                for (x, cyc) in rd_addrs:
+                # reads may also come from the ROM image (constant bytes outside the cartridge header)
+                in_rom = z3.And(z3.ULT(e[1], 0x8000), z3.Or(z3.ULT(e[1], 0x100), z3.UGE(e[1], 0x150)))
+                cons.append(z3.Implies(guard, z3.Or(in_ram(e[1]), in_rom)))
+                for (x, cyc, xv) in rd_addrs:
                     if cyc == e[3]:
                         cons.append(z3.Implies(guard, e[1] != x))
-                rd_addrs.append((e[1], e[3]))
+                    cons.append(z3.Implies(z3.And(guard, z3.ULT(e[1], 0x8000)), z3.Or(e[1] != x, e[2] == xv)))
+                rd_addrs.append((e[1], e[3], e[2]))
+            else:
+                cons.append(z3.Implies(guard, in_ram(e[1])))
+            if False:
+                pass
             else:
                 wr_addrs.append(e[1])
+    cons.append(z3.Or(*[s.pcond() for (s, n) in finals]))
     st, model = solve.check_sat(z3.And(*cons), 30000)
     placed = st == "sat"
     if not placed:
@@ -165,19 +174,21 @@ def replay_instruction(ctx, prop, ob, res, extra_setup=None):
     if extra_setup:
         setup.extend(extra_setup)
     evs = cc.bus_events(s.trace)
-    reads, watch = [], []
+    reads, watch, rominit = [], [], []
     pred_writes = []
     for e in evs:
         addr = mval(model, e[1])
         val = mval(model, e[2])
         cyc = e[3]
-        if e[0] == "R":
+        if e[0] == "R" and addr < 0x8000:
+            rominit.append("rom[0x%04x] = 0x%02x" % (addr, val))
+        elif e[0] == "R":
             reads.append("{%d, 0x%04x, 0x%02x}" % (cyc, addr, val))
         else:
             pred_writes.append({"Cycle": cyc, "Addr": addr, "Val": val})
             if addr not in watch:
                 watch.append(addr)
-    src = GO % {"setup": "\n\t".join(setup), "watch": ", ".join("0x%04x" % w for w in watch), "reads": ", ".join(reads), "ninstr": int((ob.info or {}).get("ninstr", 1))}
+    src = GO % {"setup": "\n\t".join(setup), "watch": ", ".join("0x%04x" % w for w in watch), "reads": ", ".join(reads), "rominit": "\n\t".join(rominit), "ninstr": int((ob.info or {}).get("ninstr", 1))}
     rc, log, out = run_go_test(ctx, "github.com/scottyw/tetromino/gameboy/cpu", src)
     rep = {"inputs": dict(regs, ie=ie, iflag=iff, ime=ints["ime"], op=ob.info.get("op"), cb=ob.info.get("cb"),
                           reads=[r for r in reads]),
